@@ -1,6 +1,6 @@
 #!/bin/sh
 # development aid: every quick check once, with the seed given as $1 (default 1, what a fresh-copy run uses)
-cd /verif || exit 2
+cd "$(dirname "$0")/.." || exit 2
 SEED=${1:-1}
 for p in C01 C02 C03 C04 C05 C06 C07 C08 C09 C10 C11 C12 C13 C14 C15 C16 C17 C18 C19 C20; do
   VERIF_SEED=$SEED VERIF_TIER=quick ./check $p > .work/quick_$p.log 2>&1
